@@ -279,6 +279,269 @@ fn prop() -> DataProp {
     }
 }
 
+// ------------------------------------------------------------------ Part C: commands that meet the sweeper's lock
+
+/// commands left out of the contended differential, with the reason
+fn contended_skip(name: &str) -> Option<&'static str> {
+    match name {
+        "SHUTDOWN" | "QUIT" | "SYNC" | "PSYNC" => Some("ends or hands over the connection"),
+        "RANDOMKEY" | "SRANDMEMBER" | "SPOP" => Some("random outcome"),
+        "INFO" | "CLIENT" | "SLOWLOG" | "LASTSAVE" | "MEMORY" | "TIME" | "COMMAND" | "DEBUG" | "MONITOR" => Some("reply depends on real time, connection ids or addresses"),
+        "SAVE" | "BGSAVE" | "BGREWRITEAOF" | "SLEEP" => Some("starts a thread or sleeps"),
+        "BLPOP" | "BRPOP" => Some("blocks when the key has nothing"),
+        "DBSIZE" => Some("counts keys whose deadline passed until they are removed (as Redis does)"),
+        "AUTH" | "REPLICAOF" | "SLAVEOF" | "REPLCONF" => Some("not a data command"),
+        _ => None,
+    }
+}
+
+thread_local! {
+    static CONT_H: std::cell::RefCell<Option<super::c05::Harness>> = const { std::cell::RefCell::new(None) };
+}
+
+/// One command, sent on a fresh connection after a key of k's shard has passed its deadline and the clock has reached the
+/// sweeper's next pass. `contend`: the sweeper is parked holding the shard's write lock when the command arrives and is let
+/// go 30 ms (real time) later; otherwise it has finished its pass. Returns the reply and what the data looks like afterwards.
+fn contended_run(h: &mut super::c05::Harness, state: usize, cmdv: &[String], contend: bool) -> Result<(String, Vec<String>, bool), String> {
+    use crate::{gate, resp, vtime};
+    use ferrous::verif_hooks::SWEEP_LOCKED;
+    h.ensure()?;
+    h.seed_state(state)?;
+    let storage = h.srv.as_ref().unwrap().h.storage.clone();
+    let want = storage.verif_shard_of(b"k");
+    let victim = (0..10_000).map(|i| format!("t{}", i)).find(|n| storage.verif_shard_of(n.as_bytes()) == want).ok_or("no victim name")?;
+    h.aux_call(&["SET", victim.as_str(), "v", "PX", "5"])?;
+    if contend {
+        gate::set_park_background_only(true);
+        gate::set_park_points(&[SWEEP_LOCKED]);
+    }
+    let mut parked = false;
+    for _ in 0..3 {
+        match vtime::next_wake() {
+            Some(w) => vtime::advance_to(w.max(vtime::mono_ns() + 6_000_000)).map_err(|_| "settle timeout waiting for the sweeper".to_string())?,
+            None => break,
+        }
+        if !contend {
+            break;
+        }
+        if gate::parked().iter().any(|p| p.point == SWEEP_LOCKED) {
+            parked = true;
+            break;
+        }
+    }
+    if contend && !parked {
+        gate::set_park_points(&[]);
+        gate::release_all();
+        return Err("the sweeper never took the shard lock".into());
+    }
+    let releaser = if contend {
+        Some(std::thread::Builder::new().name("releaser".into()).spawn(|| {
+            vtime::mark_free_running();
+            vtime::real_sleep_us(30_000);
+            gate::set_park_points(&[]);
+            gate::release_all();
+        }).map_err(|e| format!("spawn: {}", e))?)
+    } else {
+        None
+    };
+    let reply = {
+        let srv = h.srv.as_ref().unwrap();
+        let r = srv.connect().map_err(|e| format!("connect: {:?}", e)).and_then(|mut c| {
+            let unordered = matches!(cmdv[0].as_str(), "HKEYS" | "HVALS" | "HGETALL" | "SMEMBERS" | "SDIFF" | "SUNION" | "SINTER" | "KEYS" | "SCAN" | "HSCAN" | "SSCAN" | "ZSCAN");
+            let r = srv.call(&mut c, cmdv).map(|r| if unordered {
+                // the order of these replies is the hash table's: compared as a multiset of leaves
+                fn leaves(r: &resp::R, out: &mut Vec<String>) {
+                    match r {
+                        resp::R::Arr(v) => v.iter().for_each(|x| leaves(x, out)),
+                        other => out.push(resp::show(other)),
+                    }
+                }
+                let mut l = Vec::new();
+                leaves(&r, &mut l);
+                l.sort();
+                format!("{{{}}}", l.join(" "))
+            } else { resp::show(&r) }).unwrap_or_else(|e| format!("<{:?}>", e));
+            c.close();
+            let _ = srv.steps(2);
+            Ok(r)
+        });
+        r
+    };
+    if let Some(t) = releaser {
+        let _ = t.join();
+    }
+    gate::set_park_points(&[]);
+    gate::release_all();
+    vtime::settle().map_err(|_| "settle timeout after the sweeper was released".to_string())?;
+    let reply = reply?;
+    let mut after = Vec::new();
+    for db in ["0", "1"] {
+        h.aux_call(&["SELECT", db])?;
+        let mut keys: Vec<String> = match h.aux_call(&["KEYS", "*"])? {
+            resp::R::Arr(v) => v.iter().map(|x| resp::show(x)).collect(),
+            other => vec![resp::show(&other)],
+        };
+        keys.sort();
+        after.push(format!("db{} keys {}", db, keys.join(" ")));
+        for k in ["k", "k2"] {
+            let t = resp::show(&h.aux_call(&["TYPE", k])?);
+            let ttl = match h.aux_call(&["PTTL", k])? {
+                resp::R::Int(n) if n > 0 => "ttl".to_string(),
+                other => resp::show(&other),
+            };
+            let read: Vec<&str> = match t.trim_start_matches('+') {
+                "string" => vec!["GET", k],
+                "list" => vec!["LRANGE", k, "0", "-1"],
+                "set" => vec!["SMEMBERS", k],
+                "hash" => vec!["HGETALL", k],
+                "zset" => vec!["ZRANGE", k, "0", "-1", "WITHSCORES"],
+                "stream" => vec!["XRANGE", k, "-", "+"],
+                _ => vec!["EXISTS", k],
+            };
+            let r = h.aux_call(&read)?;
+            let v = match (&r, read[0]) {
+                (resp::R::Arr(items), "SMEMBERS") => {
+                    let mut parts: Vec<String> = items.iter().map(resp::show).collect();
+                    parts.sort();
+                    parts.join(" ")
+                }
+                (resp::R::Arr(items), "HGETALL") => {
+                    let mut parts: Vec<String> = items.chunks(2).map(|p| p.iter().map(resp::show).collect::<Vec<_>>().join("=")).collect();
+                    parts.sort();
+                    parts.join(" ")
+                }
+                _ => resp::show(&r),
+            };
+            after.push(format!("db{} {} {} {} {}", db, k, t, ttl, v));
+        }
+    }
+    h.aux_call(&["SELECT", "0"])?;
+    Ok((reply, after, parked))
+}
+
+fn contended_cases() -> Vec<(usize, Vec<String>)> {
+    let states = super::cmdtable::key_states();
+    let mut out = Vec::new();
+    for (name, args) in super::cmdtable::all_commands() {
+        if contended_skip(&name).is_some() || super::cmdtable::excluded(&name).is_some() {
+            continue;
+        }
+        for s in 0..states.len() {
+            let mut c = vec![name.clone()];
+            c.extend(args.iter().cloned());
+            out.push((s, c));
+        }
+    }
+    out
+}
+
+fn contended_extra(_tier: &str, task: &serde_json::Value, io: &mut crate::pool::WorkerIo) -> Option<serde_json::Value> {
+    use serde_json::json;
+    let (a, b) = if let Some(r) = task.get("contended") {
+        (r[0].as_u64().unwrap_or(0) as usize, r[1].as_u64().unwrap_or(0) as usize)
+    } else if task.get("replay").map(|r| r["kind"].as_str() == Some("contended")).unwrap_or(false) {
+        let i = task["replay"]["i"].as_u64().unwrap_or(0) as usize;
+        (i, i + 1)
+    } else {
+        return None;
+    };
+    let cases = contended_cases();
+    let states = super::cmdtable::key_states();
+    let mut recs = Vec::new();
+    let mut errors = Vec::new();
+    let mut held = 0u64;
+    let mut n = 0u64;
+    let mut sample = serde_json::Value::Null;
+    CONT_H.with(|cell| {
+        let mut slot = cell.borrow_mut();
+        if slot.is_none() {
+            *slot = Some(super::c05::Harness::new(crate::srv::SrvOpts::default()));
+        }
+        for i in a..b.min(cases.len()) {
+            let (st, cmdv) = &cases[i];
+            if i % 16 == 0 {
+                io.announce_case(json!({"contended": i}));
+            }
+            let h = slot.as_mut().unwrap();
+            let base = contended_run(h, *st, cmdv, false);
+            let cont = base.as_ref().ok().map(|_| contended_run(h, *st, cmdv, true));
+            match (base, cont) {
+                (Ok(bv), Some(Ok(cv))) => {
+                    n += 1;
+                    if cv.2 {
+                        held += 1;
+                    }
+                    let differs = bv.0 != cv.0 || bv.1 != cv.1;
+                    let d = json!({"key_state": states[*st].0, "command": cmdv.join(" "), "reply_after_the_pass": bv.0, "reply_against_the_held_lock": cv.0,
+                        "data_after_the_pass": bv.1, "data_against_the_held_lock": cv.1});
+                    if differs {
+                        recs.push(json!({"i": i, "what": if bv.0 != cv.0 { "reply-differs" } else { "data-differs" }, "detail": d}));
+                    } else if sample.is_null() && cmdv[0] == "LPUSH" {
+                        sample = d;
+                    }
+                }
+                (Err(e), _) | (_, Some(Err(e))) => {
+                    errors.push(format!("contended case {} ({} on {}): {}", i, cmdv.join(" "), states[*st].0, e));
+                    crate::gate::set_park_points(&[]);
+                    crate::gate::release_all();
+                    *slot = Some(super::c05::Harness::new(crate::srv::SrvOpts::default()));
+                }
+                _ => {}
+            }
+        }
+    });
+    Some(json!({"contended_recs": recs, "errors": errors, "n": n, "held": held, "sample": sample}))
+}
+
+fn contended_parent(pool: &crate::pool::Pool, _tier: &str, report: &mut crate::report::RunReport) -> serde_json::Value {
+    use serde_json::json;
+    let cases = contended_cases();
+    let states = super::cmdtable::key_states();
+    let chunk = (cases.len() / 28).max(8);
+    let mut tasks = Vec::new();
+    let mut a = 0;
+    while a < cases.len() {
+        tasks.push(json!({"contended": [a, (a + chunk).min(cases.len())]}));
+        a += chunk;
+    }
+    let mut n = 0u64;
+    let mut held = 0u64;
+    let mut differing = 0u64;
+    let mut sample = serde_json::Value::Null;
+    for o in pool.map(tasks, 0) {
+        match o {
+            crate::pool::Outcome::Done(v) => {
+                for e in v["errors"].as_array().cloned().unwrap_or_default() {
+                    report.machinery_errors.push(format!("{}", e));
+                }
+                n += v["n"].as_u64().unwrap_or(0);
+                held += v["held"].as_u64().unwrap_or(0);
+                if sample.is_null() && !v["sample"].is_null() {
+                    sample = v["sample"].clone();
+                }
+                for r in v["contended_recs"].as_array().cloned().unwrap_or_default() {
+                    differing += 1;
+                    let i = r["i"].as_u64().unwrap_or(0) as usize;
+                    let (st, cmdv) = &cases[i];
+                    report.deviations.push(crate::report::Deviation {
+                        property: "C02".into(),
+                        sig: format!("C02|contended|{}|state={}|{}", cmdv[0], states[*st].0, r["what"].as_str().unwrap_or("")),
+                        replay: json!({"kind": "contended", "i": i, "detail": r["detail"]}),
+                    });
+                }
+            }
+            crate::pool::Outcome::Died { status, case } => report.machinery_errors.push(format!("worker died: {} {:?}", status, case)),
+        }
+    }
+    println!("  c02-contended: commands-against-a-held-shard-lock={} (lock really held in {}) differing-from-the-uncontended-run={}", n, held, differing);
+    if n > 0 && held < n {
+        report.machinery_errors.push(format!("the sweeper held the shard lock in only {} of {} contended runs", held, n));
+    }
+    let skipped: Vec<String> = super::cmdtable::all_commands().iter().filter_map(|(name, _)| contended_skip(name).map(|why| format!("{}: {}", name, why))).collect();
+    json!({"commands_against_a_held_shard_lock": {"pairs_of_runs": n, "lock_really_held": held, "differing": differing, "sample": sample, "left_out": skipped,
+        "what": "every command of the dispatch table (plausible arguments on key k, some also k2) x 7 states of k (missing, one per type), each run twice on a fresh dataset: a key of k's shard is given a 5 ms deadline and the clock moved to the sweeper's next pass; in one run the pass completes before the command is sent, in the other the sweeper is parked at SWEEP_LOCKED holding the shard's write lock when the command arrives and is released 30 ms of real time later. Reply and the data afterwards (KEYS *, type, TTL class and full content of k and k2 in databases 0 and 1) must be the same in both runs."}})
+}
+
 fn window_parent(pool: &crate::pool::Pool, tier: &str, report: &mut crate::report::RunReport) -> serde_json::Value {
     let bound = if tier == "thorough" { 2 } else { 1 };
     let mut total_exec = 0u64;
@@ -312,10 +575,21 @@ fn window_parent(pool: &crate::pool::Pool, tier: &str, report: &mut crate::repor
         "distinct_observation_sequences": outcomes, "samples": samples}})
 }
 
+fn extras_parent(pool: &crate::pool::Pool, tier: &str, report: &mut crate::report::RunReport) -> serde_json::Value {
+    let mut w = window_parent(pool, tier, report);
+    let c = contended_parent(pool, tier, report);
+    if let (Some(wm), Some(cm)) = (w.as_object_mut(), c.as_object()) {
+        for (k, v) in cm.iter() {
+            wm.insert(k.clone(), v.clone());
+        }
+    }
+    w
+}
+
 pub fn parent(tier: &str) -> i32 {
-    e1common::data_parent(&prop(), tier, Some(&window_parent))
+    e1common::data_parent(&prop(), tier, Some(&extras_parent))
 }
 
 pub fn handle_factory() -> impl FnMut(&str, &serde_json::Value, &mut crate::pool::WorkerIo) -> (serde_json::Value, bool) {
-    e1common::data_handle_factory(make_world, None)
+    e1common::data_handle_factory(make_world, Some(contended_extra))
 }
